@@ -26,8 +26,9 @@ def base_statements(seed, n_templates):
 
 
 class Workload:
-    def __init__(self, ctx, n_templates, n_mut, n_soup, n_noise=True, dialects=DIALECTS, max_nest=40, n_lexeme=0):
+    def __init__(self, ctx, n_templates, n_mut, n_soup, n_noise=True, dialects=DIALECTS, max_nest=40, n_lexeme=0, n_gram=0):
         self.n_lexeme = n_lexeme
+        self.n_gram = n_gram
         self.ctx = ctx
         self.n_templates = n_templates
         self.n_mut = n_mut
@@ -114,4 +115,26 @@ class Workload:
                 d = self.dialects[0] if j % 4 else self.dialects[1 + (j // 4) % 2]
                 if ctx.mine(idx):
                     yield idx, 'lexeme', d, pos.format(x=x)
+                idx += 1
+
+        # class 7: grammar-derived sentences of the dialect under test (+ one token-level mutation of some of them)
+        if self.n_gram:
+            from vf.gen.gramgen import GramGen
+            gens = {}
+            for j in range(self.n_gram):
+                if ctx.mine(idx):
+                    r = core.rng_for(ctx.seed, 'parsework', 'gram', j)
+                    d = self.dialects[0] if j % 2 == 0 else self.dialects[1 + (j // 2) % 2]
+                    if d not in gens:
+                        gens[d] = GramGen(monitors.parser_classes()[d], monitors.lexer_classes()[d])
+                    t = gens[d].sentence(r, max_depth=r.choice([6, 8, 10, 12]))
+                    label = 'gram'
+                    if r.random() < 0.25:
+                        try:
+                            toks = monitors.lex_all(t, d)
+                        except Exception:
+                            toks = []
+                        ml, t = sqlgen.mutate(t, toks, r, self.vocab(d))
+                        label = 'gram+mut:' + ml
+                    yield idx, label, d, t
                 idx += 1
